@@ -32,13 +32,13 @@ PROPERTY = 'C19'
 LEVEL = 'exploration'
 
 UNIVERSE = ['a.txt', 'A.TXT', 'mat.txt', 'materials/x.vmt', 'materials/sub/y.vtf', 'materials2/z.vmt',
-            'Models/m.mdl', 'x']
-ABSENT = ['nope.txt', 'materials', 'materials/sub', 'materials/x', 'mat', 'x.vmt']     # never files
+            'Models/m.mdl', 'x', '.hid/k.txt']
+ABSENT = ['nope.txt', 'materials', 'materials/sub', 'materials/x', 'mat', 'x.vmt', 'hid/k.txt', 'k.txt', '.a.txt']     # never files
 BACKENDS = ['virtual', 'zip', 'vpk', 'raw']
 LOOKUP_OPS = ['in', 'getitem', 'open_bin', 'open_str']
 
-REAL_FOLDERS = ['materials', 'materials/sub', 'materials2', 'Models']
-NON_BOUNDARY = ['mat', 'materials/s', 'material', 'Model', 'm']       # prefixes that are no folder boundary
+REAL_FOLDERS = ['materials', 'materials/sub', 'materials2', 'Models', '.hid']
+NON_BOUNDARY = ['mat', 'materials/s', 'material', 'Model', 'm', 'hid']       # prefixes that are no folder boundary
 FILE_AS_FOLDER = ['a.txt', 'x', 'materials/x.vmt', 'mat.txt']           # a file is not a folder
 NO_FOLDER = ['nope', 'materials/nope']
 FOLDER_BASES = [''] + REAL_FOLDERS + NON_BOUNDARY + FILE_AS_FOLDER + NO_FOLDER
@@ -306,7 +306,7 @@ def backend_battery(acc: core.Acc, names: list, workdir: str, only: dict | None 
     model = Model(files)
     systems = {}
     for b in BACKENDS:
-        if only and b != only['backend'] and only['op'] != 'casedup':
+        if only and b != only['backend'] and only['op'] not in ('casedup', 'lead_sep'):
             continue
         if b == 'raw' and model.has_casedup:
             acc.count('skipped_raw_casedup_set')
@@ -317,6 +317,22 @@ def backend_battery(acc: core.Acc, names: list, workdir: str, only: dict | None 
         path = materialise(os.path.join(workdir, b), b, files)
         systems[b] = open_fs(b, path, files)
 
+    # ---- a leading separator: not a spelling the property names, so no answer is prescribed - but every archive-like
+    # backend has to give the same one (the directory backend treats it as an absolute path and refuses it)
+    if not only or only['op'] == 'lead_sep':
+        for base in UNIVERSE:
+            for q in ('/' + base, '\\' + base, '//' + base):
+                for op in ('in', 'getitem'):
+                    got = {}
+                    for b, fs in systems.items():
+                        if b == 'raw':
+                            continue
+                        o = observe_lookup(fs, op, q)
+                        got[b] = o[0] if o[0] != 'present' else ('present', o[1])
+                    acc.evaluations += 1
+                    if len({repr(v) for v in got.values()}) > 1:
+                        acc.fail('lookup_backends_disagree', {'part': 'backend', 'names': names, 'backend': 'all', 'op': 'lead_sep', 'base': base, 'q': q},
+                                 f'file set {names}: {op}({q!r}) answers differ between backends: {got}', op=op, cause='leading_separator')
     # ---- lookups
     lookup_obs: dict = {}
     for base in UNIVERSE + ABSENT:
@@ -609,6 +625,33 @@ def chain_battery(acc: core.Acc, members: list, only: dict | None = None) -> Non
         if expected:
             acc.nontrivial += 1
         acc.outcome(('chain', 'walk', folder, len(expected), ok, diff, k))
+        if ok and len(obs) >= 2:
+            # two walks of the same chain alive at once (lock-step and nested): each yields what a lone walk yields
+            lone = [o[0] for o in obs]
+            try:
+                w1, w2 = chain.walk_folder(folder), chain.walk_folder(folder)
+                got1, got2 = [], []
+                for fa, fb in itertools.zip_longest(itertools.islice(w1, WALK_CAP), itertools.islice(w2, WALK_CAP)):
+                    if fa is not None:
+                        got1.append(fa.path)
+                    if fb is not None:
+                        got2.append(fb.path)
+                nested_outer, nested_inner = [], None
+                for f in itertools.islice(chain.walk_folder(folder), WALK_CAP):
+                    nested_outer.append(f.path)
+                    if nested_inner is None:
+                        nested_inner = [g.path for g in itertools.islice(chain.walk_folder(folder), WALK_CAP)]
+                acc.evaluations += 1
+                for label, got in (('first of two lock-step walks', got1), ('second of two lock-step walks', got2),
+                                   ('outer walk around a nested walk', nested_outer), ('nested inner walk', nested_inner)):
+                    if got != lone:
+                        acc.fail('chain_walk_interleaved', chain_case(members, op='walk', q=folder),
+                                 f'chain {desc}: walk_folder({folder!r}) alone yields {lone}; as the {label} it yields {got}',
+                                 op='walk', cause='chain', diff='interleaved')
+                        break
+            except Exception as exc:  # noqa: BLE001
+                acc.fail('chain_walk_interleaved', chain_case(members, op='walk', q=folder),
+                         f'chain {desc}: interleaved walk_folder({folder!r}) raised {type(exc).__name__}: {exc}', op='walk', cause='chain', diff='exception')
         if ok:
             continue
         bad_members = []
@@ -775,7 +818,7 @@ def run(ctx: core.Ctx) -> None:
                 f"distinct members from a pool of {len(TEMPLATES)} (file set, subfolder prefix) templates x 4 backends, each built "
                 f"through the constructor and through every priority=True/False add_sys history (member order checked; for chains of <= 2 also with lookups after every add_sys step and a final re-mount of the first member with priority), x "
                 f"lookups {LOOKUP_OPS} of every case/slash spelling of {CHAIN_QUERIES} x de-duplicated walk_folder of {CHAIN_FOLDERS}; "
-                f"queries whose answer from a directory member depends on the host's case rules are skipped and counted.  "
+                f"every non-trivial chain walk additionally as two lock-step walks and as a walk nested inside another walk of the same chain (each must yield what a lone walk yields); names with a leading separator must get the same answer from every archive-like backend; queries whose answer from a directory member depends on the host's case rules are skipped and counted.  "
                 f"Each (set, backend, op, spelling) / (chain, op, spelling) is met once.  Non-trivial = the model expects a file "
                 f"(lookup) / a non-empty listing (walk), or the oracle failed.")
     ctx.assumptions.append('POSIX host with a case-sensitive tmpfs; VPK version 1 directory file with embedded data; zip '
